@@ -34,6 +34,9 @@ Additions for stateful callees (retrospective wrappers / smoothers; all fail clo
                `result (T * S1 * ... * Sn)` and the statement becomes `dor (x, s1, ..., sn) <- template;` - it may raise.
   cfg["return_state"]  [state variables]: every `return e` returns `(e, s1, ..., sn)`, the function's type is
                `result (T * S1 * ... * Sn)` (the state the caller goes on with, e.g. the unread answers).
+  cfg["assign_effects"] [(statement pattern, state variable, template)]: an assignment STATEMENT that updates a declared state
+               variable in place, e.g. `selection_vector[__i] = True` -> `vor {state} (...)`; like cfg["effects"], for
+               statements that are not calls.
   `while True:` with `break` / `continue` (only with cfg["while_fuel"] = name of a `nat` parameter): PyRt.res_while, recursion on
                that explicit fuel over the tuple of carried variables; the body answers (go on?, state): `break` = false, end of
                body / `continue` = true.  Running out of fuel is NOT a Python behaviour (Err 98): linking theorems are stated
@@ -129,6 +132,8 @@ class Tr:
         self.state_calls = [(pat(x[0]), list(x[1]), x[2], parse_type(x[3]), {h: parse_type(t) for h, t in (x[4] if len(x) > 4 else {}).items()})
                             for x in cfg.get("state_calls", [])]
         self.return_state = list(cfg.get("return_state", []))
+        spat = lambda p: Rename().visit(ast.parse(p)).body[0]
+        self.assign_effects = [(spat(p), var, tmpl) for p, var, tmpl in cfg.get("assign_effects", [])]
         self.raises = list(cfg.get("raises", []))  # [(substring of unparse(raise stmt), tag)]
         self.fresh = 0
         self.ret_type = parse_type(cfg["returns"])
@@ -353,7 +358,12 @@ class Tr:
         for st in stmts:
             if self.is_ignored(st):
                 continue
-            if isinstance(st, ast.Assign):
+            if isinstance(st, ast.Assign) and any(self.unify(patn, st, {}) for patn, _v, _t in self.assign_effects):
+                for patn, var, _t in self.assign_effects:
+                    if self.unify(patn, st, {}):
+                        add(var)
+                        break
+            elif isinstance(st, ast.Assign):
                 for patn, svars, _t, _v, _a in self.state_calls:
                     if self.unify(patn, st.value, {}):
                         for n in svars:
@@ -482,6 +492,14 @@ class Tr:
             return self.block(rest, env, k, ind)
         hoist = []
         if isinstance(st, ast.Assign):
+            for patn, var, tmpl in self.assign_effects:
+                binds = {}
+                if self.unify(patn, st, binds):
+                    if var not in env or env[var] == ("unit",):
+                        raise Unsupported("assignment effect on an unbound state variable: " + var)
+                    args = {kk[2:]: self.expr(v, env, hoist)[0] for kk, v in binds.items()}
+                    args["state"] = var
+                    return self.bind_hoist(hoist, "%slet %s := %s in\n" % (ind, var, tmpl.format(**args)), ind) + self.block(rest, env, k, ind)
             if len(st.targets) != 1:
                 raise Unsupported("multiple assignment: " + ast.unparse(st))
             tgt = st.targets[0]
